@@ -176,6 +176,9 @@ class Evaluator:
 
     def _decide(self, condterm, alternatives):
         from .terms import show
+        # `!c` is decided through `c` (so that rules reading decisions see one atom whatever the polarity in the source)
+        if isinstance(condterm, Sym) and condterm.what == "un!" and list(alternatives) == [True, False]:
+            return not self._decide(condterm.parts[0], [False, True])
         key = show(condterm)
         i = len(self._taken)
         # a condition decided earlier on this path keeps its outcome
